@@ -15,7 +15,7 @@ pub fn format_parse_error(input: &str, err: nom::Err<NomError<&str>>) -> String 
     match err {
         nom::Err::Error(e) | nom::Err::Failure(e) => {
             let error_pos = e.input;
-            let offset = input.len() - error_pos.len();
+            let offset = error_offset(input, error_pos);
             
             // Calculate line and column numbers
             let mut line_no = 1;
@@ -129,6 +129,23 @@ pub fn format_parse_error(input: &str, err: nom::Err<NomError<&str>>) -> String 
             format!("\n{}", renderer.render(report))
         }
     }
+}
+
+/// Byte offset of the error position in `input`, always on a character boundary.
+/// The error slice is usually the unparsed suffix of `input`, but some parser
+/// errors report the offending token instead, so its position is taken from
+/// the slice itself when it lies inside `input`.
+fn error_offset(input: &str, error_pos: &str) -> usize {
+    let start = input.as_ptr() as usize;
+    let pos = error_pos.as_ptr() as usize;
+    if pos >= start && pos + error_pos.len() <= start + input.len() {
+        return pos - start;
+    }
+    let mut offset = input.len().saturating_sub(error_pos.len());
+    while !input.is_char_boundary(offset) {
+        offset -= 1;
+    }
+    offset
 }
 
 /// End of the one-character span that starts at `offset`, always on a UTF-8
